@@ -85,3 +85,27 @@ impl<'a, Context: ServerContext> HttpRouterIter<'a, Context> {
     #[verifier::external_body]
     pub fn path(&self) -> (r: String) { unimplemented!() }
 }
+/// openapiv3::Info / openapiv3::OpenAPI: the document is modelled only by the LOG of operations emitted into it
+#[verifier::external_body]
+pub struct OpenApiInfo { _p: u8 }
+#[verifier::external_body]
+pub struct OpenApiDoc { _p: u8 }
+/// the operations emitted into the document so far: (method name, endpoint), in emission order
+pub uninterp spec fn doc_ops<C: ServerContext>(d: OpenApiDoc) -> Seq<(String, ApiEndpoint<C>)>;
+/// W10: everything gen_openapi does before its endpoint loop (no operation is emitted there)
+#[verifier::external_body]
+pub fn doc_prologue<C: ServerContext>(info: OpenApiInfo) -> (d: OpenApiDoc)
+    ensures doc_ops::<C>(d).len() == 0
+{ unimplemented!() }
+/// W10: the body of the endpoint loop after the visibility test: emits ONE operation for this endpoint under this
+/// path and method.  Its precondition is the property's "unpublished endpoints are omitted", proved at the call
+#[verifier::external_body]
+pub fn emit_operation<'a, C: ServerContext>(d: &mut OpenApiDoc, path: String, method: String, endpoint: &'a ApiEndpoint<C>)
+    requires endpoint.visible,
+    ensures doc_ops::<C>(*final(d)) == doc_ops::<C>(*old(d)).push((method, *endpoint))
+{ unimplemented!() }
+/// W10: the collection of referenced schemas and error responses after the loop (emits no operation)
+#[verifier::external_body]
+pub fn finish_components<C: ServerContext>(d: &mut OpenApiDoc)
+    ensures doc_ops::<C>(*final(d)) == doc_ops::<C>(*old(d))
+{ unimplemented!() }
